@@ -382,6 +382,10 @@ class Engine:
         self.trace_calls = False
         self.bounds_unknown_as_panic = True
         self.nsym = 0
+        self.taint = False
+        self.events = []
+        self.taint_seen = {}
+        self.cur_pos = ('', -1, '')
         self.debug = bool(os.environ.get('VERIF_DEBUG'))
         self.in_init = False
         self.shift_memo = {}
@@ -402,6 +406,7 @@ class Engine:
             self.lin = intprove.Linearizer()
         self.gobj = {}
         self.path_log = []
+        self.taint_seen = {}
         if hasattr(self, 'mod_memo'):
             self.mod_memo = {}
         for h in getattr(self, 'path_reset_hooks', []):
@@ -528,10 +533,30 @@ class Engine:
         import intprove
         return intprove.prove_int(self.pc, claim, stats=self.stats)
 
+    # ---- taint mode (property C08): every value derived from a symbolic (secret) input collapses to one opaque
+    # symbol per width; a branch or an index on such a value is recorded as an event
+    def sec(self, t):
+        ii = self.prog.intinfo(t) if t else None
+        if ii:
+            return z3.BitVec('secret%d' % ii[0], ii[0])
+        return z3.Bool('secret_bool')
+
+    def taint_event(self, kind, detail=''):
+        fr = self.cur_pos
+        self.events.append((kind, fr[0], fr[1], fr[2], detail))
+
     def branch(self, cond):
         """decide a branch; returns python bool; forks via the decision worklist"""
         if isinstance(cond, bool):
             return cond
+        if self.taint:
+            self.taint_event('symbranch')
+            key = ('b',) + tuple(self.cur_pos[:2])
+            n = self.taint_seen.get(key, 0)
+            self.taint_seen[key] = n + 1
+            if n >= 2:
+                return False       # the position is already reported; do not multiply paths
+            return bool(self.choose(2, 'taint-branch'))
         cond = z3.simplify(cond)
         if z3.is_true(cond):
             return True
@@ -866,6 +891,8 @@ class Engine:
             nxt = None
             for ins in instrs[k:]:
                 op = ins['op']
+                if self.taint:
+                    self.cur_pos = (f['name'], bi, ins.get('pos') or self.cur_pos[2] if self.cur_pos[0] == f['name'] else (ins.get('pos') or ''))
                 if op == 'If':
                     c = self.val(env, ins['a'][0])
                     t = self.branch(c)
@@ -959,6 +986,9 @@ class Engine:
             base = self.val(env, A[0])
             idx = self.val(env, A[1])
             idx = self.index_to_int(idx, A[1]['t'])
+            if self.taint and is_sym(idx):
+                self.taint_event('symindex')
+                idx = 0
             if isinstance(base, Slice):
                 self.bounds_check(self.in_range(idx, base.len), 'index out of range', ins.get('pos'))
                 return self.slice_elems_ptr(base, idx)
@@ -971,6 +1001,9 @@ class Engine:
         if op == 'Index':
             arr = self.val(env, A[0])
             idx = self.index_to_int(self.val(env, A[1]), A[1]['t'])
+            if self.taint and is_sym(idx):
+                self.taint_event('symindex')
+                idx = 0
             if isinstance(arr, str):
                 return ord(arr[idx]) if False else arr.encode('latin-1')[idx]
             self.bounds_check(self.in_range(idx, len(arr)), 'index out of range', ins.get('pos'))
@@ -1079,6 +1112,9 @@ class Engine:
             hi = ln
         if mx is None:
             mx = cp
+        if self.taint and (is_sym(lo) or is_sym(hi) or is_sym(mx)):
+            self.taint_event('symslice')
+            lo, hi, mx = (0 if is_sym(lo) else lo), (ln if is_sym(hi) else hi), (cp if is_sym(mx) else mx)
         # checks: 0 <= lo <= hi <= max <= cap
         self.bounds_check(self.in_range(mx, cp, inclusive=True), 'slice bounds out of range [::%s] with capacity %s' % (mx, cp), pos)
         self.bounds_check(self.in_range(hi, mx, inclusive=True), 'slice bounds out of range [:%s] with capacity %s' % (hi, mx), pos)
@@ -1258,6 +1294,8 @@ class Engine:
 
     # ------------------------------------------------------------------ arithmetic
     def binop(self, op, a, b, ta, tb, tr):
+        if self.taint and (is_sym(a) or is_sym(b)):
+            return self.sec(tr if self.prog.intinfo(tr) else None)
         if getattr(a, '_is_iv', False) or getattr(b, '_is_iv', False):
             return self.iv_mode.binop(op, a, b, tr)
         if isinstance(a, (ByteOf, OrBytes)) or isinstance(b, (ByteOf, OrBytes)):
@@ -1513,6 +1551,8 @@ class Engine:
             ii = self.prog.intinfo(ins['t'])
             return self.load(a, ii[0] if ii else None)
         a = force(a)
+        if self.taint and is_sym(a):
+            return self.sec(ins['t'] if self.prog.intinfo(ins['t']) else None)
         if op == '!':
             return self.not_(a)
         info = self.prog.intinfo(ins['t'])
@@ -1530,6 +1570,8 @@ class Engine:
         raise Unsupported('unop ' + op)
 
     def convert(self, v, tf, tt):
+        if self.taint and is_sym(force(v)) and self.prog.intinfo(tt):
+            return self.sec(tt)
         if getattr(v, '_is_iv', False):
             fi, ti = self.prog.intinfo(tf), self.prog.intinfo(tt)
             return self.iv_mode.convert(v, fi[0], ti[0])
